@@ -852,9 +852,14 @@ def main(tier: str) -> int:
 
     # ---------------- oracle on C2
     run.cov["overlap_scenarios"] = {}
+    n_over_viol = 0
     for sc, o in zip(scs, sobs):
         bad = overlap_oracle(sc, o)
         run.cov["overlap_scenarios"][sc["name"]] = (bad[0] if bad else "consistent") if "error" not in o else "driver-error"
+        if bad and not any(k.get("signature") == bad[0] for k in run._known):
+            n_over_viol += 1
+            if n_over_viol > 3:          # the first few are enough to report; all are listed in the evidence
+                continue
         if bad:
             sn = o["snaps"][-1] if o.get("snaps") else None
             run.violation(bad[0], f"{sc['name']}: {sc['cmd']} overlapping the run thread ({sc['wpc']}): {bad[1]}; outcome {sn}",
